@@ -37,7 +37,7 @@ Definition valid_code (c : Z) : bool := (c =? 67) || (c =? 195) || (c =? 7).
 Definition decision (t : track) (with_age : bool) : outcome engine :=
   match t_cmd t with
   | Some (spd, tm) =>
-      let a := if with_age then (if volvo_timeout_ms <? t_now t - tm then Old else Young) else NoAge in
+      let a := if with_age then (if volvo_timeout_ms <=? t_now t - tm then Old else Young) else NoAge in
       next_state volvo_rpm_idle volvo_rpm_max (e_state (t_status t)) (if 0 <? spd then Request else NoRequest) spd a
   | None => next_state volvo_rpm_idle volvo_rpm_max (e_state (t_status t)) (e_state (t_status t)) (e_rpm (t_status t)) NoAge
   end.
@@ -58,7 +58,7 @@ Definition frame_ok (sa : Z) (t : track) (with_age : bool) (fs : list frame) : b
                   implb (spd0 =? 0) (negb (code =? 195))
                   && implb ((spd0 =? 0) && estate_eqb (e_state (t_status t)) Request) (code =? 7)
                   (* cranking ends within the transition timeout after the last command *)
-                  && implb (with_age && (volvo_timeout_ms <? t_now t - tm)) (negb (code =? 195))
+                  && implb (with_age && (volvo_timeout_ms <=? t_now t - tm)) (negb (code =? 195))
               | None => true end)
       | _, _ => false
       end
